@@ -49,6 +49,14 @@ def gen_cases(tier, seed):
                     k += 1
                     cases.append(dict(mode="loss", loss=l, flavour=fl, net=net, order=["eje", "jj", "ge"][k % 3],
                                       d=int(rng.integers(1, 3)), B=int(rng.integers(2, 5)), seed=seed * 10000 + k, cost=3.0))
+        # a switched-off dynamic term (weight = the Python number 0) whose residual is non-finite at one batch point:
+        # what the term evaluates to must not depend on whether the weight is a concrete number (eager, closure) or a
+        # traced value (the loss passed through jit, as solve() does)
+        for l in ("ode", "statio", "nonstatio"):
+            for order in ("eje", "jj", "ge"):
+                k += 1
+                cases.append(dict(mode="loss", loss=l, flavour="plain", net="pinn", order=order, variant="zero_weight_singular",
+                                  d=int(rng.integers(1, 3)), B=int(rng.integers(2, 5)), seed=seed * 10000 + k, cost=3.0))
         for g in GENS:
             for state in ("fresh", "mid", "end"):
                 for x64 in (True, False):
@@ -226,6 +234,15 @@ def run_loss(case, rec):
         rec.unsupp(u.reason)
         return
     sig = "loss/%s/%s/%s" % (case["loss"], case["net"], case["flavour"])
+    if case.get("variant") == "zero_weight_singular":
+        import equinox as eqx
+        from ..eqs import singular_module
+        pt = {"ode": lambda b: np.asarray(b.temporal_batch)[:1], "statio": lambda b: np.asarray(b.inside_batch)[0],
+              "nonstatio": lambda b: np.asarray(b.times_x_inside_batch)[0]}[case["loss"]](batch)
+        loss = eqx.tree_at(lambda l_: l_.dynamic_loss, loss, singular_module(loss.dynamic_loss, case["loss"], pt))
+        loss = eqx.tree_at(lambda l_: l_.loss_weights.dyn_loss, loss, 0.0, is_leaf=lambda x: x is None)
+        sig += "/zero-weight-singular-residual"
+        rec.count("zero_weight_singular_cases")
 
     def snap_all():
         return {"params": snapshot(params), "batch": snapshot(batch), "loss": snapshot(loss)}
@@ -281,7 +298,7 @@ def run_loss(case, rec):
             for other, w in seen.items():
                 rec.count("mode_pairs_compared")
                 if other == name:
-                    if not np.array_equal(v, w):
+                    if not np.array_equal(v, w, equal_nan=True):
                         rec.violation(sig + "/not-repeatable/%s" % name, "two %s evaluations on the same arguments differ: %s vs %s" % (name, v, w))
                 elif not close(v, w, 1e-12, 1e-14):
                     rec.violation(sig + "/%s-differs-from-%s" % tuple(sorted([name, other])),
@@ -296,7 +313,7 @@ def run_loss(case, rec):
     except guard.Crash as c:
         rec.violation(sig + "/crash", "evaluation crashed: %s" % c)
         return
-    rec.nontrivial((case["loss"], case["net"], case["flavour"], case["order"], case["d"], case["B"]))
+    rec.nontrivial((case["loss"], case["net"], case["flavour"], case["order"], case["d"], case["B"], case.get("variant")))
     rec.set_sample(loss=case["loss"], net=case["net"], flavour=case["flavour"], order=case["order"],
                    values={k: v for k, v in seen.items()})
 
